@@ -174,7 +174,11 @@ var cgroupRe = regexp.MustCompile(`cg\d+:(\w*)(-opt)?`)
 
 func engineRules(rng *rand.Rand, npat int) (rules string, groups []egroup, pats []string) {
 	all := systematicPatterns()
-	for _, p := range []string{`foo`, `.*foo.*`, `^"foo`, `foo"$`, `^"foo"$`, `(?i)foo`, `^"[Ff]`, `\x{FFFD}`, `^"\p{Lu}`, `o{2}`, `^$`, `ø`, `\\n`} {
+	for _, p := range []string{`foo`, `.*foo.*`, `^"foo`, `foo"$`, `^"foo"$`, `(?i)foo`, `^"[Ff]`, `\x{FFFD}`, `^"\p{Lu}`, `o{2}`, `^$`, `ø`, `\\n`,
+		// an anchor next to a dot-star against node texts of several lines (`.` stops at a newline unless (?s) says otherwise)
+		`^.*foo`, `foo.*$`, `^.*foo.*$`, `^.*foo` + "`$", "^`foo.*$", `(?s)^.*foo`, `(?m)foo.*$`, `.*foo.*`,
+		// parentheses that are literals (bracket expression, \Q..\E, escaped) against texts in which `:` / `?` / `(` decide
+		`^[^()]*$`, `[()]`, `\Q(\E`, `\(x\)`, `[(?]`, `^"[^(:]*"$`} {
 		pats = append(pats, p)
 	}
 	for len(pats) < npat {
@@ -325,7 +329,7 @@ func engineRules(rng *rand.Rand, npat int) (rules string, groups []egroup, pats 
 // engineTarget: the file text of one variant. Variant v > 0 has, in every slot, another text of the same length: all node
 // offsets are those of variant 0 while (almost) every text differs.
 func engineTarget(groups []egroup, variant int) (string, []esite) {
-	texts := []string{"", "foo", "FOO", "Foo", "xfoo", "foox", "fo", "føö", "bar", "foo bar", "Upper", "lower", "ünï", "a\nb", "�", "K", "K", "😀foo", "1", "oof bar", "x"}
+	texts := []string{"", "foo", "FOO", "Foo", "xfoo", "foox", "fo", "føö", "bar", "foo bar", "Upper", "lower", "ünï", "a\nb", "�", "K", "K", "😀foo", "1", "oof bar", "x", "a:b", "why?", "f(x)"}
 	var textArgs []string
 	for _, t := range texts {
 		textArgs = append(textArgs, strconv.Quote(t))
